@@ -324,6 +324,9 @@ func (i *ICMPv6NeighborSolicitation) DecodeFromBytes(data []byte, df gopacket.De
 // SerializationBuffer, implementing gopacket.SerializableLayer.
 // See the docs for gopacket.SerializableLayer for more info.
 func (i *ICMPv6NeighborSolicitation) SerializeTo(b gopacket.SerializeBuffer, opts gopacket.SerializeOptions) error {
+	if err := checkIPv6Address(i.TargetAddress); err != nil {
+		return fmt.Errorf("Invalid target IPv6 address (%s)", err)
+	}
 	if err := i.Options.SerializeTo(b, opts); err != nil {
 		return err
 	}
@@ -374,6 +377,9 @@ func (i *ICMPv6NeighborAdvertisement) DecodeFromBytes(data []byte, df gopacket.D
 // SerializationBuffer, implementing gopacket.SerializableLayer.
 // See the docs for gopacket.SerializableLayer for more info.
 func (i *ICMPv6NeighborAdvertisement) SerializeTo(b gopacket.SerializeBuffer, opts gopacket.SerializeOptions) error {
+	if err := checkIPv6Address(i.TargetAddress); err != nil {
+		return fmt.Errorf("Invalid target IPv6 address (%s)", err)
+	}
 	if err := i.Options.SerializeTo(b, opts); err != nil {
 		return err
 	}
@@ -441,6 +447,12 @@ func (i *ICMPv6Redirect) DecodeFromBytes(data []byte, df gopacket.DecodeFeedback
 // SerializationBuffer, implementing gopacket.SerializableLayer.
 // See the docs for gopacket.SerializableLayer for more info.
 func (i *ICMPv6Redirect) SerializeTo(b gopacket.SerializeBuffer, opts gopacket.SerializeOptions) error {
+	if err := checkIPv6Address(i.TargetAddress); err != nil {
+		return fmt.Errorf("Invalid target IPv6 address (%s)", err)
+	}
+	if err := checkIPv6Address(i.DestinationAddress); err != nil {
+		return fmt.Errorf("Invalid destination IPv6 address (%s)", err)
+	}
 	if err := i.Options.SerializeTo(b, opts); err != nil {
 		return err
 	}
